@@ -1,6 +1,8 @@
 (* BiffRec.v — model of the BIFF8 worksheet-substream reader of calamine (src/xls.rs):
    RecordIter (record framing with CONTINUE collection), the sheet loop of parse_workbook
-   (record-type dispatch, fmla_pos and the STRING record that follows a FORMULA), parse_number,
+   (the count of open substreams: records of a substream nested in the sheet are skipped and only
+   the sheet's own EOF ends it; record-type dispatch, fmla_pos and the STRING record that follows
+   a FORMULA), parse_number,
    parse_rk, parse_mul_rk, parse_label_sst, parse_label/parse_string, parse_bool_err/parse_err,
    parse_formula_value, parse_dimensions, ending in Range::from_sparse (Range.v); then the
    specification side: logical items, what they denote, and the encoder.
@@ -298,8 +300,16 @@ Definition step (r : frec) (cells : list cellv) (fpos : pos) (fmls : list pos) :
     end
   else Ok (Next cells fpos fmls).
 
+(* the loop over the records of the substream.  [depth] = the substreams open at this record
+   (BOF records met minus the EOF records that closed a nested substream): 0 before the sheet's
+   own BOF, 1 inside the sheet, more inside a substream nested in it (the chart of an embedded
+   chart object, [MS-XLS] 2.1.7.20.5 OBJECTS -> CHART = BOF CHARTSHEETCONTENT; repo commit
+   "fix: records of a chart substream nested in an xls worksheet ...").  The first match of the
+   loop body: BOF opens a substream; at depth > 1 an EOF closes the nested substream and every
+   other record is skipped; only then the record dispatch [step] (the second match), whose EOF arm
+   ends the sheet.  depth is a usize that counts records of the stream: it cannot overflow. *)
 Fixpoint sheet_loop (fuel : nat) (s : list N) (cells : list cellv) (fpos : pos) (fmls : list pos)
-  : outcome (list cellv * list pos) :=
+  (depth : N) : outcome (list cellv * list pos) :=
   match fuel with
   | O => OutOfFuel
   | S f =>
@@ -307,17 +317,22 @@ Fixpoint sheet_loop (fuel : nat) (s : list N) (cells : list cellv) (fpos : pos) 
     | None => Ok (cells, fmls)
     | Some o =>
         do rr <- o;
+        let t := f_typ (fst rr) in
+        if t =? 2057 then sheet_loop f (snd rr) cells fpos fmls (depth + 1)       (* 0x0809 BOF *)
+        else if 1 <? depth then
+          sheet_loop f (snd rr) cells fpos fmls (if t =? 10 then depth - 1 else depth)
+        else
         do fl <- step (fst rr) cells fpos fmls;
         match fl with
         | Stop => Ok (cells, fmls)
-        | Next cells' fpos' fmls' => sheet_loop f (snd rr) cells' fpos' fmls'
+        | Next cells' fpos' fmls' => sheet_loop f (snd rr) cells' fpos' fmls' depth
         end
     end
   end.
 
 (* the value cells and the formula positions of a substream, in stream order *)
 Definition sheet_cells (stream : list N) : outcome (list cellv * list pos) :=
-  sheet_loop (S (length stream)) stream [] (0, 0) [].
+  sheet_loop (S (length stream)) stream [] (0, 0) [] 0.
 
 (* the value range of one sheet substream: Range::from_sparse(cells), then
    Range::from_sparse(formulas) (nothing of it is observable here any more: it cannot panic) *)
@@ -378,6 +393,9 @@ Definition err_code (e : cerr) : N :=
   | EName => 29 | ENum => 36 | ENA => 42 | EGettingData => 43
   end.
 
+(* a record of a nested substream: type, body, the bodies of the CONTINUE records behind it *)
+Record srec : Type := mkSrec { sr_typ : N; sr_body : list N; sr_conts : list (list N) }.
+
 (* physical items of a sheet substream, in stream order.  Each is one record, except IFormula:
    FORMULA, then the records [mid] ([MS-XLS] 2.1.7.20.5: Formula [Array / Table / ShrFmla / SUB]
    [String *Continue] — Excel writes SHRFMLA after the first cell of a filled-down shared formula
@@ -393,7 +411,25 @@ Inductive item : Type :=
 | IErr (row col ixfe : N) (e : cerr)
 | IFormula (row col ixfe : N) (c : cached) (grbit chn : N) (fmla : list N) (mid : list midrec)
 | IDims (wide : bool) (rf rl cf cl : N)
-| IOther (typ : N) (body : list N).                        (* any record the loop ignores *)
+| IOther (typ : N) (body : list N)                         (* any other record of the sheet itself *)
+| ISub (bof : list N) (recs : list srec)
+   (* a substream nested in the sheet: BOF, its records, EOF.  [MS-XLS] 2.1.7.20.5:
+      WORKSHEETCONTENT = ... [CELLTABLE] OBJECTS ..., OBJECTS = *(MsoDrawing *(TEXTOBJECT / OBJ /
+      CHART)), CHART = BOF CHARTSHEETCONTENT, and CHARTSHEETCONTENT holds the series cache
+      SERIESDATA = Dimensions 3(SIIndex *(Number / BoolErr / Blank / Label)) and ends with its own
+      EOF: Excel 97-2003 writes one for every chart object on the sheet.  The records are ANY
+      records (cell record types, FORMULA, STRING, MERGECELLS, DIMENSIONS, further BOF ... EOF
+      pairs, each with any CONTINUE records behind it): nothing in a nested substream belongs to
+      the sheet.  The only condition is that BOF and EOF balance ([balanced]). *)
+| IMerge (regs : list (N * N * N * N)).
+   (* MERGECELLS 0x00E5: cmcs, then one Ref8 (rwFirst, rwLast, colFirst, colLast) per region;
+      the regions are C17's (Merge.v), here the record only has to leave the cells alone *)
+
+Definition enc_ref8 (r : N * N * N * N) : list N :=
+  match r with (rf, rl, cf, cl) => le_bytes 2 rf ++ le_bytes 2 rl ++ le_bytes 2 cf ++ le_bytes 2 cl end.
+
+Definition enc_srec (r : srec) : list N :=
+  frame (sr_typ r) (sr_body r) ++ flat_map (frame 60) (sr_conts r).
 
 Definition cell_head (row col ixfe : N) : list N :=
   le_bytes 2 row ++ le_bytes 2 col ++ le_bytes 2 ixfe.
@@ -448,6 +484,8 @@ Definition enc_item (it : item) : list N :=
   | IDims false rf rl cf cl =>
       frame 512 (le_bytes 2 rf ++ le_bytes 2 rl ++ le_bytes 2 cf ++ le_bytes 2 cl ++ [0; 0])
   | IOther typ body => frame typ body
+  | ISub bof recs => frame 2057 bof ++ flat_map enc_srec recs ++ frame 10 []
+  | IMerge regs => frame 229 (le_bytes 2 (lenN regs) ++ flat_map enc_ref8 regs)
   end.
 
 (* a layout: the items of the substream and whatever follows its EOF record *)
@@ -502,6 +540,8 @@ Definition item_cells (it : item) : list cellv :=
   | IFormula row col ixfe c _ _ _ _ => [((row, col), formula_data ixfe c)]
   | IDims _ _ _ _ _ => []
   | IOther _ _ => []
+  | ISub _ _ => []                                  (* nothing of a nested substream is a cell of the sheet *)
+  | IMerge _ => []
   end.
 
 (* the logical sheet a layout stands for: its cells in stream order *)
@@ -511,14 +551,17 @@ Definition logical (c : layout) : list cellv := flat_map item_cells (l_items c).
 Definition item_fmls (it : item) : list pos :=
   match it with
   | IFormula row col _ _ _ _ _ _ => [(row, col)]
-  | _ => []
+  | _ => []                                         (* in particular ISub: a FORMULA inside is not the sheet's *)
   end.
 Definition layout_fmls (c : layout) : list pos := flat_map item_fmls (l_items c).
 
 (* ---- which layouts are legal BIFF8 ---- *)
+(* the record types with a meaning of their own in a sheet substream: the cell records, DIMENSIONS,
+   MERGECELLS, FORMULA / STRING, CONTINUE (belongs to the record before it), and the two that
+   delimit substreams: BOF 2057 (opens a nested substream: item ISub) and EOF 10 *)
 Definition interpreted (t : N) : bool :=
   (t =? 512) || (t =? 515) || (t =? 516) || (t =? 517) || (t =? 519) || (t =? 638) ||
-  (t =? 253) || (t =? 189) || (t =? 229) || (t =? 10) || (t =? 6) || (t =? 60).
+  (t =? 253) || (t =? 189) || (t =? 229) || (t =? 10) || (t =? 6) || (t =? 60) || (t =? 2057).
 
 Definition wf_cell (row col ixfe : N) : bool :=
   (row <? 65536) && (col <? 256) && (ixfe <? 65536).
@@ -547,6 +590,25 @@ Definition wf_cached (c : cached) : bool :=
 Definition wf_mid (m : midrec) : bool :=
   (fst m <? 65536) && negb (interpreted (fst m)) && (lenN (snd m) <=? 8224).
 
+(* a record of a nested substream: any type but CONTINUE (CONTINUE records are the [sr_conts] of
+   the record they follow), any body and CONTINUE bodies a record can hold; a CONTINUE body is
+   not empty (RecordIter folds a CONTINUE into the record before it only when more than its
+   4 header bytes are left in the stream) *)
+Definition wf_srec (r : srec) : bool :=
+  (sr_typ r <? 65536) && negb (sr_typ r =? 60) && (lenN (sr_body r) <=? 8224) &&
+  forallb (fun c => (0 <? lenN c) && (lenN c <=? 8224)) (sr_conts r).
+
+(* BOF and EOF records balance: [d] substreams are open inside the nested substream before the
+   first record, none is left open at the end, and no EOF closes more than were opened *)
+Fixpoint balanced (d : nat) (recs : list srec) : bool :=
+  match recs with
+  | [] => match d with O => true | S _ => false end
+  | r :: rest =>
+      if sr_typ r =? 2057 then balanced (S d) rest
+      else if sr_typ r =? 10 then match d with O => false | S d' => balanced d' rest end
+      else balanced d rest
+  end.
+
 Definition wf_item (it : item) : bool :=
   match it with
   | INumber row col ixfe bits => wf_cell row col ixfe && (bits <? 18446744073709551616)
@@ -566,6 +628,8 @@ Definition wf_item (it : item) : bool :=
       ((rl =? 0) || (cl =? 0) || ((rf <? rl) && (cf <? cl))) &&
       (rf <? 65536) && (cf <? 256)
   | IOther typ body => (typ <? 65536) && negb (interpreted typ) && (lenN body <=? 8224)
+  | ISub bof recs => (lenN bof <=? 8224) && forallb wf_srec recs && balanced 0 recs
+  | IMerge regs => lenN regs <=? 1026               (* [MS-XLS] 2.4.168: cmcs <= 1026 *)
   end.
 
 Definition trailer_ok (t : list N) : bool := negb (starts_cont t).
